@@ -42,7 +42,15 @@ func main() {
 	replay := flag.String("replay", "", "print a stored violation")
 	list := flag.Bool("list", false, "list obligations")
 	seeds := flag.String("seeds", "/verif/seeded", "directory of seeded faults used as positive controls in the thorough tier")
+	symtabOut := flag.String("write-symtab", "", "write the reference symbol table of -repo to this file and exit")
 	flag.Parse()
+	if *symtabOut != "" {
+		if err := writeSymtab(*repo, *symtabOut); err != nil {
+			fmt.Println(err)
+			os.Exit(2)
+		}
+		os.Exit(0)
+	}
 
 	if *replay != "" {
 		b, err := os.ReadFile(*replay)
@@ -132,6 +140,9 @@ func main() {
 				continue
 			}
 			c := newCtx(p, id, *tier)
+			for _, r := range p.Renames {
+				c.note("[%s] renamed symbol: %s", cfg.Name, r)
+			}
 			func() {
 				defer func() {
 					if r := recover(); r != nil {
